@@ -67,13 +67,13 @@ def run_refine(tmp, text, newtext, mode, cycles, keep=False):
             p = os.path.join(tmp, f)
             if f not in ('bin',):
                 shutil.rmtree(p) if os.path.isdir(p) else os.remove(p)
-        open(os.path.join(tmp, 'm.res'), 'w').write(text)
+        open(os.path.join(tmp, 'm.res'), 'wb').write(text.encode('utf-8'))
     else:
         for f in ('m.seen_ins', 'm.ins'):
             if os.path.exists(os.path.join(tmp, f)):
                 os.remove(os.path.join(tmp, f))
     open(os.path.join(tmp, 'm.hkl'), 'w').write('   0   0   0    0.00    0.00\n')
-    open(os.path.join(tmp, 'm.new'), 'w').write(newtext)
+    open(os.path.join(tmp, 'm.new'), 'wb').write(newtext.encode('utf-8'))
     from shelxfile.shelx.shelx import Shelxfile
     cwd = os.getcwd()
     os.chdir(tmp)
@@ -96,9 +96,10 @@ def run_refine(tmp, text, newtext, mode, cycles, keep=False):
     finally:
         os.chdir(cwd)
         os.environ['PATH'] = old_path
-    rd = lambda n: open(os.path.join(tmp, n)).read() if os.path.exists(os.path.join(tmp, n)) else None
+    # bytes, not text: universal-newline reading would hide a changed line end
+    rd = lambda n: open(os.path.join(tmp, n), 'rb').read().decode('utf-8', 'surrogateescape') if os.path.exists(os.path.join(tmp, n)) else None
     res.update({'res': rd('m.res'), 'ins': rd('m.ins'), 'seen_ins': rd('m.seen_ins'), 'bak': rd('m.shx-bak'), 'had_acta': had_acta,
-                'saves': [open(os.path.join(tmp, 'shxsaves', f)).read() for f in os.listdir(os.path.join(tmp, 'shxsaves'))] if os.path.isdir(os.path.join(tmp, 'shxsaves')) else [],
+                'saves': [open(os.path.join(tmp, 'shxsaves', f), 'rb').read().decode('utf-8', 'surrogateescape') for f in os.listdir(os.path.join(tmp, 'shxsaves'))] if os.path.isdir(os.path.join(tmp, 'shxsaves')) else [],
                 'shx': shx})
     return res
 
@@ -116,9 +117,19 @@ def run(ctx):
         fake = os.path.join(tmp, 'bin', 'shelxl')
         open(fake, 'w').write(FAKE)
         os.chmod(fake, os.stat(fake).st_mode | stat.S_IXUSR | stat.S_IXGRP | stat.S_IXOTH)
-        for k in range(n):
-            text = make_res(rng)
-            newtext = new_res(text, rng)
+        for k in range(n * 3):
+            # every model in three byte-level renditions: LF line ends, CR LF line ends (a file edited on Windows), non-ASCII text in a remark
+            if k % 3 == 0:
+                base = make_res(rng)
+            text = base
+            if k % 3 == 1:
+                text = base.replace('\n', '\r\n')
+            elif k % 3 == 2:
+                bl = base.split('\n')
+                bl.insert(1, 'REM d(C-C) = 1.54 \u00c5, \u00b5 = 0.1 mm-1')
+                text = '\n'.join(bl)
+            hist['line ends ' + ('LF', 'CRLF', 'LF+non-ASCII')[k % 3]] = hist.get('line ends ' + ('LF', 'CRLF', 'LF+non-ASCII')[k % 3], 0) + 1
+            newtext = new_res(base, rng)
             for mode in MODES:
                 cycles = rng.choice([None, 0, 4, 12])
                 r = run_refine(tmp, text, newtext, mode, cycles)
